@@ -72,6 +72,8 @@ type sut struct {
 	o        sutOpts
 	cfg      *config.Config
 	idp      *fakeIdp
+	lag      time.Duration // accumulated lag of the store's clock behind the replicas' clock (see shift)
+	lagNext  time.Duration // lag to introduce with the next shift
 	ocfg     *mock.TestConfiguration
 	mr       *miniredis.Miniredis
 	crypter  crypto.Crypter
@@ -553,7 +555,15 @@ func (s *sut) shift(t *session.Ticket, d time.Duration) bool {
 		}
 	}
 	if s.mr != nil {
-		s.mr.FastForward(d)
+		ff := d - s.lagNext
+		if ff < 0 {
+			ff = 0
+		}
+		s.lag += d - ff // the store's clock now trails the replicas' by this much: entries live that much longer than the session's own end
+		s.lagNext = 0
+		if ff > 0 {
+			s.mr.FastForward(ff)
+		}
 	}
 	return ok
 }
